@@ -214,15 +214,65 @@ def gap_circuit(rng):
     return c, None
 
 
+def traverse_then_edit(rng, c, op=None):
+    """A circuit object is traversed, EDITED, and traversed again: everything is queried once (results dropped), then one line is added
+    without changing the node count (from a fork to a free input pin of a node of a higher level, so the graph stays acyclic) or one
+    line is removed; the checks that follow see the edited circuit.  Returns a description of the edit or None."""
+    from kyupy.circuit import Line
+    for it in (c.topological_order(), c.topological_order_with_level(), c.topological_line_order(), c.reversed_topological_order(),
+               c.fanin([n for n in c.nodes if len(n.outs) == 0][:2] or c.nodes[:1])):
+        for _ in it:
+            pass
+    lvl = {n.index: int(l) for n, l in c.topological_order_with_level()}
+    cands = []
+    for f in c.nodes:
+        if f.kind != '__fork__':
+            continue
+        for g in c.nodes:
+            if g is f or g.kind in ('input', '__fork__') or on.is_seq(g) or lvl[g.index] <= lvl[f.index]:
+                continue
+            pins = [p for p in range(min(4, len(g.ins) + 1)) if p >= len(g.ins) or g.ins[p] is None]
+            if g.kind == 'output':
+                pins = [p for p in pins if p == 0]
+            if pins:
+                cands.append((f, g, pins[0]))
+    if op is None:
+        if cands and rng.random() < 0.8:
+            f, g, p = rng.choice(cands)
+            op = ['add', f.index, g.index, p]
+        elif len(c.lines) > 1:
+            op = ['rm', rng.choice(list(c.lines)).index]
+        else:
+            return None, None
+    if op[0] == 'add':
+        Line(c, c.nodes[op[1]], (c.nodes[op[2]], op[3]))
+        return f'line added from fork {op[1]} to pin {op[3]} of node {op[2]} after a first round of traversals', op
+    l = c.lines[op[1]]
+    what = f'line {l.index} ({l.driver.index} -> {l.reader.index}) removed after a first round of traversals'
+    l.remove()
+    return what, op
+
+
 def run(ck):
     ck.prove('C17', THEOREMS)
     rng = random.Random(ck.seed * 7919 + 17)
     fails, cases, meta = [], [], []
     for i in range(ck.scale(120, 3000)):
         c, a = direct_state_circuit(rng) if i % 5 == 4 else gap_circuit(rng) if i % 5 == 2 else cg.gen_circuit(rng)
+        edit, pre, eop = None, None, None
+        if i % 4 == 3:
+            pre = cg.describe(c)
+            try:
+                edit, eop = traverse_then_edit(rng, c)
+            except Exception as e:
+                fails.append(('traversal', {'circuit': cg.describe(c)}, f'traversal / edit raises {type(e).__name__}: {e}'))
+                continue
+            ck.count(int(edit is not None), 'traversed, edited, traversed again')
         k = rng.randint(1, 3)
         origins = sorted(rng.sample(range(len(c.nodes)), min(k, len(c.nodes))))
         desc = {'circuit': cg.describe(c), 'origins': origins}
+        if edit:
+            desc.update({'history': edit, 'circuit_before_edit': pre, 'edit_op': eop})
         ck.count(1, 'traversal')
         ck.nontrivial(('t', len(c.nodes), len(c.lines), tuple(origins)))
         try:
@@ -278,8 +328,12 @@ def run(ck):
 def replay(rp):
     inp = rp['input']
     if 'circuit' in inp:
-        c = cg.from_description(inp['circuit'])
         try:
+            if inp.get('edit_op'):
+                c = cg.from_description(inp['circuit_before_edit'])
+                traverse_then_edit(random.Random(0), c, inp['edit_op'])
+            else:
+                c = cg.from_description(inp['circuit'])
             return traversal_oracle(c, inp['origins']) is not None
         except Exception:
             return True
